@@ -457,6 +457,13 @@ fn inputs(prop: &str, seed: u64, w: u32, thorough: bool) -> Inputs {
                     }
                 }
             }
+            // digit sequences with internal symmetry at every granularity (reversals and exchanges of digit pairs)
+            for g in [1usize, 2, 4, 8] {
+                if 2 * g <= n {
+                    i.vals.push(gen::symmetric(&mut r, n, g, 0));
+                    i.vals.push(gen::symmetric(&mut r, n, g, 1));
+                }
+            }
             // exact powers of two and neighbours (next_power_of_two, is_power_of_two)
             for k in 0..(8 * n) {
                 if thorough || r.below(5) == 0 || k + 1 == 8 * n || k % 64 == 0 || k % 8 == 7 {
